@@ -36,7 +36,8 @@ Rejected(g, others) == HasDup(others \o Names(Expand(g))) \/ IllTyped(Expand(g))
 (***************************************************************************)
 InstNames == {"e1", "e2", "g", "d1"}     \* ("e3" appears in the three-instance groups)
 ArgChoices == {<<>>, <<"1", "a">>}
-OptChoices == {<<>>, << <<"k", "2">> >>}
+(* options keep their DECLARED order on the command line: a two-key choice in non-alphabetical order *)
+OptChoices == {<<>>, << <<"k", "2">> >>, << <<"k", "2">>, <<"b", "x">> >>}
 Insts == [name : InstNames, args : ArgChoices, opts : OptChoices, par : BOOLEAN]
 Plain(n, p) == [name |-> n, args |-> <<>>, opts |-> <<>>, par |-> p]
 InstSeqs == {<<>>} \cup {<<a>> : a \in Insts} \cup {<<a, b>> : a \in Insts, b \in {x \in Insts : x.args = <<>> \/ x.opts = <<>>}}
